@@ -136,17 +136,27 @@ func (aux *Aux) LoadForm() slip.Object {
 	sort.Strings(keys)
 	for _, k := range keys {
 		method := aux.methods[k]
-		sll := make(slip.List, len(method.Doc.Args))
-		for i, da := range method.Doc.Args {
-			if i < aux.reqCnt {
-				sll[i] = slip.List{slip.Symbol(da.Name), slip.Symbol(da.Type)}
-			} else {
-				if da.Name[0] == '&' || da.Default == nil {
-					sll[i] = slip.Symbol(da.Name)
+		// The specializers are those of the method. The parameter names
+		// and defaults are the ones of the lambda a form is built for, each
+		// qualifier of a method can use its own.
+		specialized := func(lam *slip.Lambda) slip.List {
+			args := method.Doc.Args
+			if lam.Doc != nil && len(lam.Doc.Args) == len(args) {
+				args = lam.Doc.Args
+			}
+			sll := make(slip.List, len(args))
+			for i, da := range args {
+				if i < aux.reqCnt {
+					sll[i] = slip.List{slip.Symbol(da.Name), slip.Symbol(method.Doc.Args[i].Type)}
 				} else {
-					sll[i] = slip.List{slip.Symbol(da.Name), da.Default}
+					if da.Name[0] == '&' || da.Default == nil {
+						sll[i] = slip.Symbol(da.Name)
+					} else {
+						sll[i] = slip.List{slip.Symbol(da.Name), da.Default}
+					}
 				}
 			}
+			return sll
 		}
 		var doc slip.Object
 		if 0 < len(aux.docs.Text) {
@@ -157,7 +167,7 @@ func (aux *Aux) LoadForm() slip.Object {
 		}
 		if 0 < len(method.Combinations) {
 			if lam, ok := method.Combinations[0].Primary.(*slip.Lambda); ok {
-				mdef := slip.List{slip.Symbol(":method"), sll}
+				mdef := slip.List{slip.Symbol(":method"), specialized(lam)}
 				if doc != nil {
 					mdef = append(mdef, doc)
 				}
@@ -165,7 +175,7 @@ func (aux *Aux) LoadForm() slip.Object {
 				gdef = append(gdef, mdef)
 			}
 			if lam, ok := method.Combinations[0].Before.(*slip.Lambda); ok {
-				mdef := slip.List{slip.Symbol(":method"), slip.Symbol(":before"), sll}
+				mdef := slip.List{slip.Symbol(":method"), slip.Symbol(":before"), specialized(lam)}
 				if doc != nil {
 					mdef = append(mdef, doc)
 				}
@@ -173,7 +183,7 @@ func (aux *Aux) LoadForm() slip.Object {
 				gdef = append(gdef, mdef)
 			}
 			if lam, ok := method.Combinations[0].After.(*slip.Lambda); ok {
-				mdef := slip.List{slip.Symbol(":method"), slip.Symbol(":after"), sll}
+				mdef := slip.List{slip.Symbol(":method"), slip.Symbol(":after"), specialized(lam)}
 				if doc != nil {
 					mdef = append(mdef, doc)
 				}
@@ -181,7 +191,7 @@ func (aux *Aux) LoadForm() slip.Object {
 				gdef = append(gdef, mdef)
 			}
 			if lam, ok := method.Combinations[0].Wrap.(*slip.Lambda); ok {
-				mdef := slip.List{slip.Symbol(":method"), slip.Symbol(":around"), sll}
+				mdef := slip.List{slip.Symbol(":method"), slip.Symbol(":around"), specialized(lam)}
 				if doc != nil {
 					mdef = append(mdef, doc)
 				}
